@@ -36,7 +36,8 @@ class C08(Prop):
                 "NV.C08.move_walk_terminates", "NV.C08.task_no_hang", "NV.C08.no_hang", "NV.C08.objects_filter_sound",
                 "NV.C08.catch_contains_errors", "NV.C08.catch_restores_guards",
                 "NV.C08.absMap_spec", "NV.C08.lookup_refines_read", "NV.C08.enter_refines_insert",
-                "NV.C08.enter_refused_when_present", "NV.C08.remove_refines_delete", "NV.C08.table_is_map_reachable"]
+                "NV.C08.enter_refused_when_present", "NV.C08.remove_refines_delete", "NV.C08.table_is_map_reachable",
+                "NV.C08.exec_stable", "NV.C08.load_val_named", "NV.C08.load_returns_registered"]
     consts = [("oDestructed", "O_DESTRUCTED"), ("oEnableCommands", "O_ENABLE_COMMANDS"), ("oClone", "O_CLONE")]
     const_headers = ["lpc/object.h"]
     quick_n = 700
